@@ -170,7 +170,10 @@ func hasForall(t *Term) bool {
 // of the current path at the given ground index terms (DESIGN appendix, item
 // 9): consequences of facts already assumed, so adding them is sound; they
 // make proofs independent of the e-matching order of the solver.
-func (s *Solver) instancesAt(sks []*Term) []*Term {
+func (s *Solver) instancesAt(sks []*Term) []*Term { return s.instancesFrom(0, sks) }
+
+// instancesFrom: as instancesAt, for the facts of solver levels >= from only
+func (s *Solver) instancesFrom(from int, sks []*Term) []*Term {
 	var out []*Term
 	seen := map[*Term]bool{}
 	var inst func(t *Term) []*Term
@@ -224,14 +227,17 @@ func (s *Solver) instancesAt(sks []*Term) []*Term {
 		}
 		return nil
 	}
-	for _, lv := range s.qlv {
+	for li, lv := range s.qlv {
+		if li < from {
+			continue
+		}
 		for _, t := range lv {
 			for _, x := range inst(t) {
 				if x == TFalse {
 					fmt.Fprintf(os.Stderr, "instancesAt: FALSE instance of %s\n", t)
 					continue
 				}
-				if !seen[x] && x != TTrue && len(out) < 400 {
+				if !seen[x] && x != TTrue && len(out) < 2500 {
 					seen[x] = true
 					out = append(out, x)
 				}
